@@ -101,6 +101,8 @@ def coq_mg_case(sc, o):
             else:
                 execs.append(sorted((k, v // 1000000) for k, v in r["result"].items()))
         panic = bool(oo.get("panic")) or sn is None or bool(sn.get("panic")) or any(e is None for e in execs)
+        if sn is not None and not sn.get("panic") and sn.get("index_ok") is False:
+            INDEX_BAD.append((sc["id"], i))
         if sn is None or sn.get("panic"):
             snap_t = "mkMS %s true [] [] false 0%%nat [] 0%%nat [] [] []" % coq_bool(oo.get("err", False))
         else:
@@ -117,7 +119,9 @@ def coq_mg_case(sc, o):
                                       coq_list([coq_str(n) for n in RN]), coq_list(steps, per_line=True))
 
 
-MG_CODES = {21: "the management operation (or a query / execution after it) panicked",
+INDEX_BAD = []
+MG_CODES = {28: "the name->position index of the master or of an instance's rule container is inconsistent with its sorted rule list (the next incremental update will edit the wrong slot)",
+            21: "the management operation (or a query / execution after it) panicked",
             22: "the operation's error flag differs from the model",
             23: "the master rule set is not the set the sequence denotes (names, saliences, descriptions, order)",
             24: "some engine instance holds a different rule set than the master",
@@ -143,6 +147,7 @@ def main(run):
             items.append(coq_mg_case(s, ob[s["id"]]))
     mm = [(t[0], t[1], t[2]) for t in chunked_eval(PID, "mg_case", items, "check_mg", per=12)]
     mm += [(sid, 0, 21) for sid in crashed]
+    mm += [(sid, step, 28) for sid, step in INDEX_BAD if not any(m[0] == sid for m in mm)]
     run.log("checked inside Coq: %d disagreement(s)" % len(mm))
     byid = {s["id"]: s for s in scs}
     seen = set()
